@@ -33,7 +33,7 @@ ASSUMPTIONS = ["rate constant over the interval (the property's premise)", "rela
 REQUIRED = ["C06:split-invariance", "C06:same-instant-zero", "C06:earlier-time-rejected", "C06:query-changes-nothing",
             "C06:twin-query-bit-identical", "C06:positive-never-charged", "C06:negative-charged-at-r+m",
             "C06:margin-earns-nothing", "C06:rebalance-reports-interest", "C06:failed-rebalance-accrues-once"]
-REQUIRED_CATS = ["refused-request-then-accrual", "query-beyond-next-accrual", "rate-quote-type:f32", "rate-quote-type:int", "rate-quoted-two-sided", "sub-second-spacing", "tz-aware-changing-offsets"]
+REQUIRED_CATS = ["base-currency-not-the-default", "refused-request-then-accrual", "query-beyond-next-accrual", "rate-quote-type:f32", "rate-quote-type:int", "rate-quoted-two-sided", "sub-second-spacing", "tz-aware-changing-offsets"]
 REQUIRED_HITS = ["Broker.accrued_interest"]
 TECHNIQUE = "runtime monitoring: closed-form reference model (60-digit decimal) and twin runs over generated accrual schedules"
 LEVEL_TEXT = ("Exploration. The real Broker.accrued_interest / Broker.rebalance are driven through thousands of generated accrual "
@@ -42,14 +42,19 @@ LEVEL_NOTE = ("Trusted: Python decimal for the reference power. Mutation audit: 
               "removed, query advancing the accrual clock, margin included in the balance are caught.")
 
 
+CUR = [Cash()]          # the account's base currency in the case at hand (the default dollar, or another one)
+
+
 def mk(dep, rate, markup, t0, half_spread=0.0):
     rate_c = Rate("R")
     fees = BrokerFees(markup=markup, interest_rate=rate_c)
     ex = gen.new_exchange(t0, fees, rate)
+    if CUR[0] != Cash():
+        ex.process_EventNBBO(EventNBBO(t0, CUR[0], 1.0, 1.0))
     if half_spread:
         # the reference rate itself is quoted two-sided: the rate that applies is its MID
         ex.process_EventNBBO(EventNBBO(t0, rate_c, rate - half_spread, rate + half_spread))
-    return Broker(ex, deposit=dep, fees=fees), ex, fees
+    return Broker(ex, base_currency=CUR[0], deposit=dep, fees=fees), ex, fees
 
 
 def ref(bal, rate, markup, secs):
@@ -63,6 +68,9 @@ def ref(bal, rate, markup, secs):
 
 def case(ctx, i, tier):
     rng = ctx.rng
+    CUR[0] = Cash() if rng.random() < 0.75 else Cash(rng.choice(["EUR", "GBP"]))
+    if CUR[0] != Cash():
+        ctx.cat("base-currency-not-the-default")
     t0 = datetime(rng.choice([1999, 2000, 2019, 2020, 2023, 2024]), rng.choice([1, 2, 3, 7, 12]), rng.choice([1, 15, 28]))
     rate = rng.choice([rng.uniform(-0.05, 0.2499), rng.uniform(0, 0.05), 0.0, 0.2499])
     markup = rng.choice([0, 0, rng.uniform(0, 0.1), 0.005])
@@ -129,7 +137,7 @@ def case(ctx, i, tier):
         twin, ex2, _ = mk(dep, rate, markup, t0, half_spread)
     if aware:
         t0 = t0.replace(tzinfo=timezone.utc)
-    cash0 = b.holdings_quantity[Cash()]
+    cash0 = b.holdings_quantity[CUR[0]]
     ctx.cat("mode:" + mode, "cash:" + ("neg" if cash0 < 0 else "pos"), "k:{}".format(k),
             "markup>0" if markup > 0 else "markup=0")
     carry = 0.0
@@ -151,7 +159,7 @@ def case(ctx, i, tier):
                 t_later = t_later.astimezone(rng.choice(zones))
             before = dict(b.holdings_quantity)
             qv = b.accrued_interest(t_later, False)
-            bal = before[Cash()]
+            bal = before[CUR[0]]
             want = ref(bal, rate, markup, Decimal(cuts_us[later]) / 10 ** 6 - a_) - Decimal(float(bal))
             ctx.check("C06:query-changes-nothing", dict(b.holdings_quantity) == before, before=before, ahead=True)
             ctx.check("C06:query-amount", abs(Decimal(float(qv)) - want) <= Decimal(1e-10) * max(abs(Decimal(float(bal))), abs(want)) + Decimal(1e-300),
@@ -162,11 +170,11 @@ def case(ctx, i, tier):
             before = dict(b.holdings_quantity)
             qv = b.accrued_interest(t, False)
             ctx.check("C06:query-changes-nothing", dict(b.holdings_quantity) == before, before=before)
-            bal = before[Cash()]
+            bal = before[CUR[0]]
             want = ref(bal, rate, markup, c_ - a_) - Decimal(float(bal))
             ctx.check("C06:query-amount", abs(Decimal(float(qv)) - want) <= Decimal(1e-10) * max(abs(Decimal(float(bal))), abs(want)) + Decimal(1e-300),
                       got=float(qv), want=float(want))
-        bal_before = b.holdings_quantity[Cash()]
+        bal_before = b.holdings_quantity[CUR[0]]
         if cash0 > 0 and mode == "plain" and rng.random() < 0.3:
             interleaved = True
             r = Rebalancing(time=t)
@@ -190,14 +198,14 @@ def case(ctx, i, tier):
             except Exception:
                 failed = True
             ctx.check("C06:setup-rebalance-fails", failed)
-            credited = b.holdings_quantity[Cash()] != bal_before
+            credited = b.holdings_quantity[CUR[0]] != bal_before
             amt = twin.accrued_interest(t, True)
             if not credited:
                 b.accrued_interest(t, True)
             else:
                 carry += float(amt)
-            ctx.check("C06:failed-rebalance-accrues-once", b.holdings_quantity[Cash()] == twin.holdings_quantity[Cash()],
-                      credited_by_rebalance=credited, account=b.holdings_quantity[Cash()], twin=twin.holdings_quantity[Cash()],
+            ctx.check("C06:failed-rebalance-accrues-once", b.holdings_quantity[CUR[0]] == twin.holdings_quantity[CUR[0]],
+                      credited_by_rebalance=credited, account=b.holdings_quantity[CUR[0]], twin=twin.holdings_quantity[CUR[0]],
                       before=bal_before, refused_in="make_trades")
             ctx.cat("refused-request-then-accrual")
         elif mode != "plain" and rng.random() < 0.25:
@@ -216,12 +224,12 @@ def case(ctx, i, tier):
             if mode != "plain-negdeposit":
                 ex.process_EventNBBO(EventNBBO(t, c, 100.0, 100.0))
             ctx.check("C06:setup-rebalance-fails", failed)
-            credited = b.holdings_quantity[Cash()] != bal_before
+            credited = b.holdings_quantity[CUR[0]] != bal_before
             amt = twin.accrued_interest(t, True)
             if not credited:
                 b.accrued_interest(t, True)
-            ctx.check("C06:failed-rebalance-accrues-once", b.holdings_quantity[Cash()] == twin.holdings_quantity[Cash()],
-                      credited_by_rebalance=credited, account=b.holdings_quantity[Cash()], twin=twin.holdings_quantity[Cash()],
+            ctx.check("C06:failed-rebalance-accrues-once", b.holdings_quantity[CUR[0]] == twin.holdings_quantity[CUR[0]],
+                      credited_by_rebalance=credited, account=b.holdings_quantity[CUR[0]], twin=twin.holdings_quantity[CUR[0]],
                       before=bal_before)
             ctx.cat("failed-rebalance-then-accrual")
         else:
@@ -246,13 +254,13 @@ def case(ctx, i, tier):
             ctx.violation("C06:earlier-time-rejected", t=t)
         except ValueError:
             ctx.check("C06:earlier-time-rejected", dict(b.holdings_quantity) == bq)
-    got = b.holdings_quantity[Cash()]
+    got = b.holdings_quantity[CUR[0]]
     want = ref(cash0, rate, markup, Decimal(cuts_us[-1]) / 10 ** 6)
     rel = abs(Decimal(float(got)) - want) / abs(want) if want != 0 else abs(Decimal(float(got)))
     ctx.check("C06:split-invariance", rel <= Decimal(1e-10), cash0=cash0, rate=rate, markup=markup, total=total, k=k,
               got=got, want=float(want), rel=float(rel))
-    ctx.check("C06:twin-query-bit-identical", twin.holdings_quantity[Cash()] == got,
-              twin=twin.holdings_quantity[Cash()], got=got)
+    ctx.check("C06:twin-query-bit-identical", twin.holdings_quantity[CUR[0]] == got,
+              twin=twin.holdings_quantity[CUR[0]], got=got)
     if mode == "margined":
         # posted margin earns nothing: the balance grew by the formula on cash only (checked above);
         # the margin itself is unchanged by accruals.
